@@ -75,6 +75,18 @@ def rule_kmh(ctx):
            '' if ok else 'the integer index is used as cache key without normalising negatives against len(self): '
            'ds[-1] and ds[len-1] are cached separately, so the upstream runs twice for one example (and a random '
            'upstream gives two different frozen values)')
+    # the key is a builtin int: index arrays (slices, shuffles, sorts) hand in numpy integers; a dict treats np.int64(1) and
+    # 1 as the same key, the disk cache (keys compared by their serialised form) does not - the same position would be
+    # stored, and computed, once per integer type and a reopened cache would not find what iteration stored
+    first_load = min(l.lineno for l in loads)
+    conv = [n for n in A.walk_stmts(arm['body']) if isinstance(n, ast.Assign) and len(n.targets) == 1 and A.is_name(n.targets[0], item)
+            and isinstance(n.value, ast.Call) and (A.dotted(n.value.func) in ('int', 'operator.index', 'index'))
+            and len(n.value.args) == 1 and A.is_name(n.value.args[0], item) and n.lineno < first_load
+            and not flow.enclosing_guards(n, fn)[len(flow.enclosing_guards(arm['node'], fn)) + 1:]]
+    rep.ob('K', K.key(cls, '__getitem__', 'cache-key-is-a-builtin-int'), bool(conv), loads[0],
+           '' if conv else 'the integer index is used as cache key as it comes: numpy integers (every index of a slice / shuffle / '
+           'sort of the cached dataset) and Python ints are different keys for the disk cache, so one position is '
+           'computed and stored twice and a cache reopened with reuse=True recomputes what was stored under the other type')
     # M: one key
     keyvars = {A.src(l.slice) for l in loads} | {A.src(s.targets[0].slice) for s in stores} | {A.src(u.slice) for u in ups}
     ok = keyvars == {item}
